@@ -12,8 +12,13 @@ func InitGenesis(ctx sdk.Context, k keeper.Keeper, genState types.GenesisState) 
 	var lockedVaultID uint64
 	for _, item := range genState.LockedVault {
 		k.SetLockedVault(ctx, item)
-		lockedVaultID = lockedVaultID + 1
+		if item.LockedVaultId > lockedVaultID {
+			lockedVaultID = item.LockedVaultId
+		}
 	}
+	// the id counter is not part of the genesis state: restore it from the locked vaults, so that the next seizure
+	// does not reuse the id of an existing locked vault
+	k.SetLockedVaultID(ctx, lockedVaultID)
 
 	for _, item := range genState.LiquidationWhiteListing {
 		k.SetLiquidationWhiteListing(ctx, item)
